@@ -249,7 +249,67 @@ ENC = [
 ]
 STUBS = ["DTLS transport -> datagram list", "asyncio.ensure_future/call_later -> run queue / handle recorder", "time.time -> fixed instant", "crc32c real (concrete packets only)"]
 
+def h_reuse(ctx, has_channel):
+    """A stream id that the peer has reset starts from a clean inbound state, whether or not a
+    local channel object still exists for it at that moment: the next incarnation of the channel
+    delivers its first messages in order under reordering."""
+    origin = ctx.int("tsn_origin", 0, U32)
+    old_ssn = ctx.int("old_ssn", 0, U16)
+    with Env(crc=(lambda d: 0) if sx.active() else None) as env:
+        t = env.transport("controlled", established=True, local_tsn=5, remote_tsn=origin)
+
+        async def rec(chunk):
+            pass
+
+        t._send_chunk = rec
+        if has_channel:
+            env.channel(t, id=1)
+        t._get_inbound_stream(1).sequence_number = old_ssn  # the previous incarnation received old_ssn messages
+        p = sctp.StreamResetOutgoingParam(request_sequence=ctx.int("req", 0, U32), response_sequence=0, last_tsn=(origin - 1) & U32, streams=[1])
+        sx.run(t._receive_reconfig_param(p))
+        ctx.reach("stream-reset-handled")
+        if has_channel:
+            ctx.check(1 not in t._data_channels or t._data_channels[1].readyState in ("closing", "closed"), "reset-closes-the-channel")
+            t._data_channels.pop(1, None)
+        log = []
+        ch = env.channel(t, id=1)
+        ch.on("message", log.append)
+        msgs = []
+        for k in (1, 0):  # the second message of the new incarnation overtakes the first
+            c = DataChunk(flags=3)
+            c.tsn, c.stream_id, c.stream_seq, c.protocol, c.user_data = (origin + k) & U32, 1, k, sctp.WEBRTC_BINARY, bytes([0x40 + k])
+            sx.run(t._receive_data_chunk(c))
+            msgs.append(list(log))
+        ctx.check(msgs[0] == [], "later-message-is-held-until-the-first-arrives", repr(msgs[0]))
+        ctx.check(msgs[1] == [b"\x40", b"\x41"], "new-incarnation-delivers-in-order", repr(msgs[1]))
+    ctx.observe("log", [bytes(m) for m in log])
+
+
+def _mixed_jobs(tier):
+    from .c06_partial import _bmc_jobs
+
+    jobs = _bmc_jobs(tier)
+    return jobs[:4] + jobs[-1:] if tier == "quick" else jobs
+
+
+def _mixed(ctx, **params):
+    from .c06_partial import h_bmc
+
+    return h_bmc(ctx, **params)
+
+
 HARNESSES = {
+    "reuse": Harness("reuse", h_reuse, lambda tier: [{"has_channel": h} for h in (True, False)], style="STEP", bounds="one stream id, previous incarnation at a symbolic stream sequence number, incoming stream reset with / without a local channel object, then two messages of the next incarnation in swapped order; TSN origin symbolic", encoded=["aiortc.rtcsctptransport:RTCSctpTransport._receive_reconfig_param", "aiortc.rtcsctptransport:InboundStream.pop_messages"], twin="stream-reset-handled", opts={"samples": 1}),
+    "mixed-pr": Harness(
+        "mixed-pr",
+        _mixed,
+        _mixed_jobs,
+        style="BMC",
+        bounds="a reliable ordered channel sharing the association with a partially reliable one (the C06 back-to-back BMC: <=3 messages of <=2 fragments, 3 (quick) / 4 solver-chosen loss/timer events, loss-free suffix): abandonment next door must not cost the reliable channel a message",
+        encoded=["aiortc.rtcsctptransport:RTCSctpTransport._maybe_abandon", "aiortc.rtcsctptransport:RTCSctpTransport._update_advanced_peer_ack_point", "aiortc.rtcsctptransport:RTCSctpTransport._receive_forward_tsn_chunk"],
+        twin="suffix-done",
+        opts={"samples": 1},
+    ),
     "recv-bmc": Harness(
         "recv-bmc",
         h_recv_bmc,
